@@ -76,5 +76,35 @@ class SimplePlus(_Extras, SimpleTaskPool):
     """SimpleTaskPool with additional public members."""
 
 
+# ---- witness classes of the known findings F1, F2, F4: public members that break the control parser / session
+class HelpParamPool(TaskPool):
+    """F1: an optional parameter called `help` — its long option `--help` clashes with every parser's own `--help`."""
+
+    def foo(self, help: int = 0) -> int:
+        """Returns its argument."""
+        return help
+
+
+class UnderscoreParamPool(TaskPool):
+    """F2: an optional parameter whose name starts with an underscore — argparse derives the dest `y` from `--_y`, the
+    session pops `_y`."""
+
+    def bar(self, x: int, _y: int = 0) -> int:
+        """Adds."""
+        return x + _y
+
+
+class CommandParamPool(TaskPool):
+    """F4: a parameter called `command` — the namespace attribute under which the parser stores the member itself."""
+
+    def run(self, command: str, level: int = 0) -> str:
+        """Positional `command`: the member is overwritten by the argument."""
+        return f"{command}/{level}"
+
+    def opt(self, x: int, command: str = "c") -> str:
+        """Optional `command`: `set_defaults` overwrites the option's default with the member."""
+        return f"{x}/{command}"
+
+
 def journal(pool):
     return list(pool.__dict__.get("_journal", []))
